@@ -433,23 +433,25 @@ def CanPayloadBase_encodeDlc (this_ : Nat) (a_dataLength : Nat) : Option Nat := 
   if (sle 32 a_dataLength 8) then
     pure a_dataLength
   else
-    let sw1 := a_dataLength
-    if sw1 == 12 then
+    if (sle 32 a_dataLength 12) then
       pure 9
-    else if sw1 == 16 then
-      pure 10
-    else if sw1 == 20 then
-      pure 11
-    else if sw1 == 24 then
-      pure 12
-    else if sw1 == 32 then
-      pure 13
-    else if sw1 == 48 then
-      pure 14
-    else if sw1 == 64 then
-      pure 15
     else
-      pure 0
+      if (sle 32 a_dataLength 16) then
+        pure 10
+      else
+        if (sle 32 a_dataLength 20) then
+          pure 11
+        else
+          if (sle 32 a_dataLength 24) then
+            pure 12
+          else
+            if (sle 32 a_dataLength 32) then
+              pure 13
+            else
+              if (sle 32 a_dataLength 48) then
+                pure 14
+              else
+                pure 15
 
 /-- `ASAM::CMP::CanPayloadBase::getCrcSupport` (line 217) -/
 def CanPayloadBase_getCrcSupport (m : Bytes) (pd_ pdsize_ : Nat) (this_ : Nat) : Option Bool := do
